@@ -22,6 +22,8 @@ func hiddenKey(m omap.Map[int, int]) string {
 		return "zero"
 	}
 	var sb strings.Builder
+	sb.WriteString(mc.Fingerprint(t)) // every scalar field of the tree (size, max, ...)
+	sb.WriteByte(' ')
 	var walk func(c *stree.Cursor[stree.KV[int, int]])
 	walk = func(c *stree.Cursor[stree.KV[int, int]]) {
 		if !c.Valid() {
